@@ -76,6 +76,7 @@ type FuncContract struct {
 	PrefixOnly   bool // obligations are collected until the translation leaves the subset; the rest is reported as not verified
 	View         string
 	Views        []string          // alternative (abstract) contracts of callees this unit is verified against
+	AtStore      map[string][]Clause // field name -> condition on the stored `value` at every store to that field
 	AtCall       map[string][]Clause // callee name -> conditions that must hold in the caller right before each call
 	AllowExtern  []string
 	CallersInline bool     // at call sites the body is inlined (exact state) and the listed ensures are assumed as facts
@@ -158,7 +159,7 @@ func newContracts() *Contracts {
 		Ghosts: map[string]*GhostVar{}, Externs: map[string]*FuncContract{}, Writers: map[string][]string{}, Scenarios: map[string]*Scenario{}, ImportsByPkg: map[string][]string{}}
 }
 
-var kwRe = regexp.MustCompile(`^(import|define|ghost|func|extern|lemma|axiom|fact|scenario|do|establishes|writers|callers-inline|thorough-only|prefix-only|abstract|callback-modifies|callback-ensures|callback-requires|views|at-call|allow-extern|props|requires|ensures|modifies|nopanic|exact-conversions|trusted|inline|split|loop|assert|use|hyp|concl|timeout|bounded|opaque)\b`)
+var kwRe = regexp.MustCompile(`^(import|define|ghost|func|extern|lemma|axiom|fact|scenario|do|establishes|writers|callers-inline|thorough-only|prefix-only|abstract|at-store|callback-modifies|callback-ensures|callback-requires|views|at-call|allow-extern|props|requires|ensures|modifies|nopanic|exact-conversions|trusted|inline|split|loop|assert|use|hyp|concl|timeout|bounded|opaque)\b`)
 
 func parseExprSrc(src string) (ast.Expr, error) {
 	// ==> is written as implies(); allow `a ==> b` at top level as sugar, right-assoc
@@ -376,6 +377,19 @@ func (cs *Contracts) LoadContractFile(path string, pkgShort string) error {
 			cur.Views = append(cur.Views, strings.Fields(r.text)...)
 		case "allow-extern":
 			cur.AllowExtern = append(cur.AllowExtern, strings.Fields(r.text)...)
+		case "at-store":
+			f := strings.SplitN(r.text, " requires ", 2)
+			if len(f) != 2 {
+				return fmt.Errorf("%s:%d: at-store FIELD requires EXPR", path, r.line)
+			}
+			c, err := mkClause(rawClause{"at-store", strings.TrimSpace(f[1]), r.line})
+			if err != nil {
+				return err
+			}
+			if cur.AtStore == nil {
+				cur.AtStore = map[string][]Clause{}
+			}
+			cur.AtStore[strings.TrimSpace(f[0])] = append(cur.AtStore[strings.TrimSpace(f[0])], c)
 		case "at-call":
 			// at-call CALLEE requires EXPR
 			f := strings.SplitN(r.text, " requires ", 2)
